@@ -140,6 +140,48 @@ type PluginsConfig struct {
 	Chain   []PluginConfig `yaml:"chain"`
 }
 
+// The plugins section is read strictly. The YAML decoder drops keys it does not know without a
+// word; here that means a plugin that starts with its defaults instead of the options the
+// operator wrote ("confg:" for "config:", an option written one level too high) or a chain that
+// is not there at all ("chains:", "enable:") - a size limit or an API key silently not in force.
+
+// UnmarshalYAML refuses keys a chain entry does not have
+func (p *PluginConfig) UnmarshalYAML(value *yaml.Node) error {
+	if err := onlyKnownKeys(value, "plugin chain entry", "name", "config"); err != nil {
+		return err
+	}
+	type plain PluginConfig
+	return value.Decode((*plain)(p))
+}
+
+// UnmarshalYAML refuses keys the plugins section does not have
+func (p *PluginsConfig) UnmarshalYAML(value *yaml.Node) error {
+	if err := onlyKnownKeys(value, "plugins section", "enabled", "chain"); err != nil {
+		return err
+	}
+	type plain PluginsConfig
+	return value.Decode((*plain)(p))
+}
+
+func onlyKnownKeys(value *yaml.Node, what string, known ...string) error {
+	if value.Kind != yaml.MappingNode {
+		return nil
+	}
+	for i := 0; i+1 < len(value.Content); i += 2 {
+		key := value.Content[i]
+		found := false
+		for _, k := range known {
+			if key.Value == k {
+				found = true
+			}
+		}
+		if !found {
+			return fmt.Errorf("line %d: the %s has no key %q (known keys: %s)", key.Line, what, key.Value, strings.Join(known, ", "))
+		}
+	}
+	return nil
+}
+
 // LoggingConfig holds the structured logging configuration
 type LoggingConfig struct {
 	Level         string          `yaml:"level"`
